@@ -225,6 +225,11 @@ SPECIAL = [
      [("set", "a.b.c", "2"), ("set", "a.b.c", "2"), ("rm", "a.b"), ("set", "a", "7"), ("set", "a.b", "5"), ("set", "a.d.e", "3")]),
     ("inline-set-comment-value", "{ a = 1; b = 2; }",
      [("set", "a", "1 # note"), ("set", "zz", "1 # note"), ("set", "a", "/* c */ 2"), ("set", "b", "3")]),
+    # a nested explicit set that inherits from the enclosing scope, next to top-level bindings with the names
+    # of leaves that are NOT in the nested set
+    ("nested-inherit-sibling-names", "{\n  pname = \"a\";\n  version = \"1\";\n  passthru = {\n    inherit version;\n  };\n}",
+     [("set", "passthru.pname", '"other"'), ("rm", "passthru.pname"), ("set", "passthru.version", '"2"'), ("rm", "passthru.version"),
+      ("set", "passthru.zz", "1"), ("set", "pname", '"b"')]),
     ("quoted-dot-existing", "{\n  \"a.b\" = {\n    d = 1;\n  };\n  a.b.d = 2;\n}",
      [("set", '"a.b".d', "7"), ("set", "a.b.d", "7"), ("rm", '"a.b".d'), ("rm", "a.b.d"), ("set", '"a.b".c', "2")]),
 ]
